@@ -323,7 +323,16 @@ pub fn gen(seed: u64, count: usize, tier: &str, params: &Params) -> Vec<Value> {
         let vmap = *rng.pick(&["id", "ext"]);
         let keyed = rng.chance(1, 4);
         // now and then a stride so large that the lane's footprint exceeds any cache-minded threshold (a column of a wide matrix)
-        let strides = if n >= 30 && rng.chance(1, 10) { json!([*rng.pick(&[64, 81, -70, 130])]) } else { json!([*rng.pick(&[1, 1, 2, -1, -3, 3, -2])]) };
+        let bigstride = n >= 24 && rng.chance(1, 10) && params.get("bigstride").map(|s| s != "0").unwrap_or(true);
+        let strides = if bigstride { json!([*rng.pick(&[200, 331, -250, 512])]) } else { json!([*rng.pick(&[1, 1, 2, -1, -3, 3, -2])]) };
+        // ... with the pivot element often already at its own sorted rank while the rest is out of place
+        let mut rank_pos: i64 = -1;
+        if bigstride && rng.chance(1, 2) {
+            let x = rng.below(n as u64) as usize; let v = a[x];
+            let p = a.iter().filter(|&&w| w < v).count();
+            a.swap(x, p);
+            rank_pos = p as i64;
+        }
         let script: Vec<i64> = if rng.chance(1, 3) { (0..rng.below(8)).map(|_| rng.below(1000) as i64).collect() } else { vec![] };
         let oor = oor_den > 0 && rng.chance(1, oor_den);
         // representation: mostly mutable views; sometimes a shared ArcArray1 handle or a borrowing CowArray
@@ -336,7 +345,7 @@ pub fn gen(seed: u64, count: usize, tier: &str, params: &Params) -> Vec<Value> {
                 cases.push(json!({"ev": "poison", "routine": routine, "a": a, "pp": rng.range(0, n - 1), "pos": rng.range(0, n - 1), "stride": *rng.pick(&[1, 2, -1, -3]), "fb": fb}));
             }
             "partition" => {
-                let p = if oor || n == 0 { oor_pos(&mut rng, n) } else { rng.range(0, n - 1) };
+                let p = if oor || n == 0 { oor_pos(&mut rng, n) } else if rank_pos >= 0 { rank_pos } else { rng.range(0, n - 1) };
                 cases.push(json!({"ev": "partition", "a": a, "p": p.min(BIG), "vmap": vmap, "strides": strides, "keyed": keyed}));
             }
             "select" => {
